@@ -761,6 +761,9 @@ def constant_searches(v, leaves, k):
     finders = data.get("finders", [])
     const = {l: finders[i] for l, i in data.get("finder_by_type", []) if finders[i]["kind"] == "constants"}
     out = []
+    base = []
+    extra = []
+    v.const_extra = extra
     if not const or not leaves:
         return out
     for _ in range(k):
@@ -793,6 +796,16 @@ def constant_searches(v, leaves, k):
         if rng.random() < 0.15:
             segs[0] = "*"
         out.append("/".join(segs))
+        base.append(([val for _, val in fields[:n]], segs[-1]))
+    # systematic (no random draw, so the stream above is unchanged): the same searches with ONLY a partial glob
+    # in the parent, no whole-segment '*' anywhere above the constant level (seeded change C11k: FindInConstants
+    # deciding "the parent is a search" on whole segments only)
+    for vals, last in base[:3]:
+        for i in range(1, len(vals) - 1):       # constrained keys do not type with a partial glob (both sides answer []); free keys do
+            if len(vals[i]) > 1 and "*" not in vals[i]:
+                for part in (vals[i][0] + "*", "*" + vals[i][-1]):
+                    extra.append("/".join(vals[:i] + [part] + vals[i + 1:-1] + [last]))
+    v.const_extra = extra
     return out
 
 
@@ -888,6 +901,8 @@ def fam_tree(v, n, model):
         for s in constant_searches(v, leaves, 6):
             if rng.random() < 0.5:      # the path Finder asked first about a level it does not serve
                 ops.append({"op": "world", "w": wid, "do": "find_paths", "s": s, "config": cfg})
+            ops.append({"op": "world", "w": wid, "do": "find_all", "s": s})
+        for s in getattr(v, "const_extra", []):     # partial glob only in the parent of a constant level (no draw)
             ops.append({"op": "world", "w": wid, "do": "find_all", "s": s})
         # '>' with a concrete extension, a FindInAll of another configuration name, then '>' with the alias
         for s1, s2, _i in pairs:
